@@ -71,6 +71,7 @@ static ThrRun make_run(uint64_t seed, uint64_t run) {
 struct TaskObs { int ret; Bytes out; };
 struct TaskState {
     std::vector<uint8_t *> h;       // handle per slot
+    std::vector<char> live;         // slot currently holds an initialised object (a second init would be the caller's leak: skipped)
     std::vector<TaskObs> obs;
 };
 
@@ -90,8 +91,14 @@ static void exec_op(const Plan &p, const Op &o, TaskState &ts, TaskObs &ob) {
     const void *pa = (o.flags & F_NULLA) ? nullptr : a.data();
     int ret = -1;
     switch (o.code) {
-    case OP_INIT: g_heap.begin_op(0, 0); ret = lib_init(k, obj); break;
-    case OP_CLEANUP: lib_cleanup(k, obj); break;
+    case OP_INIT:
+        if (ts.live.size() <= (size_t)o.slot) ts.live.resize(o.slot + 1, 0);
+        if (obj && ts.live[o.slot]) { ob.ret = -2; return; }
+        g_heap.begin_op(0, 0); ret = lib_init(k, obj);
+        if (obj && ret) ts.live[o.slot] = 1;
+        if (ret && obj) { int be = lib_backend(k, obj); uint64_t ps = is_par(k) ? lib_parallel_size(k, obj) : 0; ob.out.resize(12); memcpy(&ob.out[0], &be, 4); memcpy(&ob.out[4], &ps, 8); ob.ret = ret; return; }   // the selected back end must not depend on the interleaving
+        break;
+    case OP_CLEANUP: lib_cleanup(k, obj); if (obj && ts.live.size() > (size_t)o.slot) ts.live[o.slot] = 0; break;
     case OP_ZERO: break;
     case OP_SETKEY: ret = lib_setkey(k, obj, pa, o.size, o.rounds, o.mode); break;
     case OP_SETTKEY: ret = lib_settkey(k, obj, pa, o.size); break;
@@ -175,7 +182,7 @@ struct ThrOutcome { std::vector<MonFinding> findings; uint64_t fingerprint = 0, 
 
 static void alloc_handles(const ThrRun &R, std::vector<TaskState> &sts, TaskState &shared) {
     g_caller_used = 0;
-    shared.h.clear(); shared.obs.clear();
+    shared.h.clear(); shared.obs.clear(); shared.live.clear();
     for (int k : R.setup.slots) shared.h.push_back(caller_alloc(handle_size(k)));
     shared.obs.resize(R.setup.ops.size());
     sts.assign(R.tasks.size(), TaskState());
